@@ -167,6 +167,45 @@ def check_case(run, c, row, nprng, k):
                 return
 
 
+def instance_reuse(run, cases, rows, nprng):
+    """A post-processor object is configuration, not state: one Stack / Deltas instance applied to a sequence of
+    tensors (different shapes, different numbers of dimensions) must give each the result a fresh instance gives."""
+    groups = {}
+    for c, row in zip(cases, rows):
+        if c["op"] == "stack":
+            key = ("stack", c["V"], c["time_axis"], c["pad"])
+        else:
+            key = ("deltas", c["K"], c["target_axis"], c["cat"], c["W"], c["mode"])
+        groups.setdefault(key, []).append((c, row))
+    n = 0
+    for key, items in groups.items():
+        if len(items) < 2:
+            continue
+        items = items[:6]
+        if key[0] == "stack":
+            inst = post.Stack(key[1], time_axis=key[2], pad_mode=None if key[3] == "none" else key[3])
+        else:
+            inst = post.Deltas(key[1], target_axis=key[2], concatenate=key[3], context_window=key[4], pad_mode=key[5])
+        for (c, row) in items:
+            sh = tuple(c["shape"])
+            x = (np.arange(int(np.prod(sh))) + 1).reshape(sh).astype(np.float64)
+            try:
+                got = inst.apply(x, axis=c["axis"])
+                fresh = (post.Stack(key[1], time_axis=key[2], pad_mode=None if key[3] == "none" else key[3]) if key[0] == "stack" else
+                         post.Deltas(key[1], target_axis=key[2], concatenate=key[3], context_window=key[4], pad_mode=key[5])).apply(x, axis=c["axis"])
+            except Exception as e:
+                run.violation({"kind": key[0] + "_reused_instance_raised", "config": list(key), "case": c, "error": repr(e),
+                               "sequence": [it[0]["shape"] for it in items]})
+                break
+            n += 1
+            run.evaluations += 1
+            if tuple(got.shape) != tuple(row["shape"]) or got.shape != fresh.shape or not np.array_equal(got, fresh):
+                run.violation({"kind": key[0] + "_reused_instance_differs_from_fresh", "config": list(key), "case": c,
+                               "sequence": [it[0]["shape"] for it in items], "got_shape": list(got.shape), "definition_shape": row["shape"]})
+                break
+    run.extra["instance_reuse_applications"] = n
+
+
 def run(tier, seed):
     run = common.Run("C15", tier, seed)
     rng = random.Random(seed)
@@ -182,6 +221,7 @@ def run(tier, seed):
     run.tlc_runs.append({"module": "PostLayoutCases", "cases_evaluated": len(rows), "output_cells": ncells})
     for k, (c, row) in enumerate(zip(cases, rows)):
         check_case(run, c, row, nprng, k)
+    instance_reuse(run, cases, rows, nprng)
     run.traces += len(cases)
     run.sample({"case": cases[0], "spec_row": {"shape": rows[0]["shape"], "map_head": rows[0]["map"][:4]}})
     run.sample({"case": cases[1]})
